@@ -10,7 +10,7 @@ T = "offset::local::tz_info::timezone::TimeZone::"
 def run(chk, tier):
     P = Prog("default")
     chk.configs.add("default")
-    for r in (r_thread_local, r_reload_table, r_threshold, r_fallbacks, r_dispatch, r_find_file, r_refresh_first, r_whole_sources):
+    for r in (r_thread_local, r_reload_table, r_threshold, r_fallbacks, r_dispatch, r_find_file, r_refresh_first, r_whole_sources, r_source_zone_pair):
         chk.guarded(r, P, tier)
     chk.assume("timing, file-system state, the actual zone selected for an environment and cross-thread histories are NOT decided: the property quantifies over histories and "
                "schedules; only the structure of the reload decision and of the selection order is")
@@ -290,3 +290,27 @@ def r_whole_sources(chk, P, tier):
         raise AnchorLost("Source::new: no hashing call found")
     ok = all(names in (("as_bytes",), ()) and from_arg for names, from_arg in ws)
     chk.expect(ok, "Source::new", "Source::new hashes %s of the TZ value (expected: as_bytes() of the value itself, no stripping or trimming)" % sorted(ws), loc=P.loc(fn))
+
+
+def r_source_zone_pair(chk, P, tier):
+    """the source remembered for the change test and the zone loaded are built from one and the same TZ value, both when the cache is created and when it is
+    refreshed: a cache that records another source than the one its zone came from keeps a stale zone (or reloads needlessly) at the next comparison"""
+    chk.rule("SIB.source_zone", "wherever the cache is (re)built, Source::new and current_zone receive the same TZ value (same term: env::var(\"TZ\").ok().as_deref())", floor=2)
+    # found by what they do, not by name: every function of local::inner that calls Source::new or current_zone (today Cache::default and Cache::offset)
+    fns = [n for n in P.fns if P.has(n) and "{" not in n and (n.startswith("offset::local::inner::") or n.startswith("<offset::local::inner::"))
+           and any(c.endswith("inner::Source::new") or c.endswith("inner::current_zone") for c in callees(P, n, with_closures=False))]
+    if len(fns) < 2:
+        raise AnchorLost("the two places that build the zone cache (creation and refresh)")
+    for fn in sorted(fns):
+        src, zone = set(), set()
+        for p in Sym(P, fn).paths():
+            for c in p.calls:
+                if isinstance(c[1], str) and c[1].endswith("inner::Source::new"):
+                    src.add(c[2][0])
+                elif isinstance(c[1], str) and c[1].endswith("inner::current_zone"):
+                    zone.add(c[2][0])
+        if not src or not zone:
+            raise AnchorLost(fn + ": Source::new / current_zone calls")
+        reads_tz = all(any(x[0] == "call" and isinstance(x[1], str) and x[1].endswith("env::var") for x in walk_terms(a)) or "var('TZ')" in pp(a) for a in src | zone)
+        chk.expect(src == zone and len(src) == 1 and reads_tz, fn.split("::")[-1], "%s: Source::new gets %s, current_zone gets %s (expected the same TZ value)" % (
+            fn, sorted(pp(a)[:60] for a in src), sorted(pp(a)[:60] for a in zone)), loc=P.loc(fn))
